@@ -1,6 +1,7 @@
 import Storrent.Model.Sched
 import Storrent.Lemmas.Sched
 import Storrent.Lemmas.SchedSat
+import Storrent.Lemmas.SchedMeta
 /-
 Lifting `C09_every_command_answered` from handlers to histories: per peer and block,
 #blocks of accepted PeerRequests = #TorData/TorDrop answers emitted + #released by delPeer's
@@ -195,6 +196,20 @@ theorem step_pend_plain (s : State) (op : Op) (k b : Nat) (h : op.plainT = true)
     split
     · rfl
     · split <;> rfl
+  | metaComplete =>
+    simp only []
+    split
+    · rfl
+    · split
+      · rfl
+      · show pendL k b (castMeta s.peers) = pendL k b s.peers
+        unfold pendL castMeta
+        rw [List.getElem?_map]
+        cases s.peers[k]? with
+        | none => rfl
+        | some p =>
+          simp only [Option.map_some]
+          split <;> simp [reqChunks, outstanding_def]
   | request i cs ad => cases h
   | peerEvent i slow => cases h
   | peerMsg i m slow => cases h
@@ -229,10 +244,10 @@ theorem request_shape (s : State) (i : Nat) (cs : List Nat) (ad : Bool) (hp : ¬
 
 theorem peerEvent_shape (s : State) (i : Nat) (slow : Bool) (hp : ¬ s.panicked = true) :
     ((step s (.peerEvent i slow)).1 = s ∧ ∀ k, stepEmitted s (.peerEvent i slow) k = []) ∨
-    (∃ p e rest, s.peers[i]? = some p ∧ p.evq = e :: rest ∧
+    (∃ p e rest, s.peers[i]? = some p ∧ p.alive = true ∧ p.evq = e :: rest ∧
       (step s (.peerEvent i slow)).1 = commitPeer s i p.overflow rest true
-        (handlePeerEv s.g { p with evq := rest } e slow).1 (handlePeerEv s.g { p with evq := rest } e slow).2.1 ∧
-      stepEmitted s (.peerEvent i slow) i = (handlePeerEv s.g { p with evq := rest } e slow).2.1 ∧
+        (handlePeerEv s.g i { p with evq := rest } e slow).1 (handlePeerEv s.g i { p with evq := rest } e slow).2.1 ∧
+      stepEmitted s (.peerEvent i slow) i = (handlePeerEv s.g i { p with evq := rest } e slow).2.1 ∧
       ∀ k, i ≠ k → stepEmitted s (.peerEvent i slow) k = []) := by
   unfold step
   rw [if_neg hp]
@@ -249,7 +264,7 @@ theorem peerEvent_shape (s : State) (i : Nat) (slow : Bool) (hp : ¬ s.panicked 
       · rename_i he
         exact Or.inl ⟨rfl, fun k => by unfold stepEmitted; simp [hp, hpp, ha, he]⟩
       · rename_i e rest he
-        exact Or.inr ⟨p, e, rest, hpp, he, rfl, by unfold stepEmitted; simp [hp, hpp, ha, he],
+        exact Or.inr ⟨p, e, rest, hpp, by simpa using ha, he, rfl, by unfold stepEmitted; simp [hp, hpp, ha, he],
           fun k hk => by unfold stepEmitted; simp [hp, hk]⟩
 
 theorem peerMsg_shape (s : State) (i : Nat) (m : Msg) (slow : Bool) (hp : ¬ s.panicked = true) :
@@ -436,7 +451,7 @@ theorem torEvent_pend (s : State) (k b : Nat) (hp : ¬ s.panicked = true) :
             · simp
             · simp [hpres]
 
-theorem step_pend (s : State) (op : Op) (k b : Nat) (hI : Inv s) :
+theorem step_pend (s : State) (op : Op) (k b : Nat) (hI : Inv s) (hM : MInv s) :
     pend k b (step s op).1 + covL s.g b (stepEmitted s op k) + cnt b (stepDrained s op k)
       = pend k b s + cnt b (stepAccepted s op k) := by
   have hg := hI.1.valid
@@ -477,13 +492,18 @@ theorem step_pend (s : State) (op : Op) (k b : Nat) (hI : Inv s) :
         have h4 : stepAccepted s (.peerEvent i slow) k = [] := rfl
         rw [h3, h4]
         simp only [cnt_nil, Nat.add_zero]
-        rcases peerEvent_shape s i slow hp with ⟨a1, a2⟩ | ⟨p, e, rest, hpp, he, a1, a2, a3⟩
+        rcases peerEvent_shape s i slow hp with ⟨a1, a2⟩ | ⟨p, e, rest, hpp, hal, he, a1, a2, a3⟩
         · rw [a1, a2 k]; simp
         · rw [a1, pend_commit s i k b _ _ _ _ _ p hpp]
           by_cases hik : i = k
           · subst hik
             rw [if_pos rfl, a2]
-            have := handlePeerEv_loc hg b { p with evq := rest } e slow
+            have hreq : ∀ cs, e = .request cs → ({ p with evq := rest } : Peer).hasInfo = true := by
+              intro cs hcs
+              have := hM.safe p (mem_of_get _ _ _ hpp) hal
+              rw [he, hcs] at this
+              exact safeQ_request _ cs rest this
+            have := handlePeerEv_loc hg b i { p with evq := rest } e slow hreq
             have h5 : ({ p with evq := rest } : Peer).outstanding b = p.outstanding b := rfl
             rw [h5] at this
             unfold pend
@@ -568,16 +588,17 @@ theorem step_pend (s : State) (op : Op) (k b : Nat) (hI : Inv s) :
       | wWrite a1 a2 => exact absurd rfl hpl
       | wClose a1 => exact absurd rfl hpl
       | finalise a1 => exact absurd rfl hpl
+      | metaComplete => exact absurd rfl hpl
 
-theorem run_pend (k b : Nat) : ∀ (ops : List Op) (s : State), Inv s →
+theorem run_pend (k b : Nat) : ∀ (ops : List Op) (s : State), Inv s → MInv s →
     pend k b (run s ops) + histAnswered k b s ops + histDrained k b s ops = pend k b s + histAccepted k b s ops := by
   intro ops
   induction ops with
-  | nil => intro s _; simp [run, histAnswered, histDrained, histAccepted]
+  | nil => intro s _ _; simp [run, histAnswered, histDrained, histAccepted]
   | cons op ops ih =>
-    intro s hI
-    have h1 := ih (step s op).1 (step_inv s op hI)
-    have h2 := step_pend s op k b hI
+    intro s hI hM
+    have h1 := ih (step s op).1 (step_inv s op hI hM) (step_minv s op hM)
+    have h2 := step_pend s op k b hI hM
     simp only [run, histAnswered, histDrained, histAccepted]
     omega
 
